@@ -214,6 +214,23 @@ def case_panel(rng, tier):
         return c.reject('%s for a %s amplitude vector: %s' % (type(e).__name__, rk, str(e)[:100]))
     c.expect('fint independent of the memory layout of the state vector', np.array_equal(f_rep, fint(cvec)), rk)
     c.expect('kT independent of the memory layout of the state vector', np.array_equal(k_rep, kT(cvec)), rk)
+    # the caller's state array updated IN PLACE between two tangent evaluations (what an iteration loop writing c += dc does): the
+    # second tangent is the one of the values the array holds now - judged against a twin object given a fresh copy of them
+    if rng.random() < 0.5:
+        c.tag('clause:state_updated_in_place')
+        carr = np.ascontiguousarray(cvec * float(rng.uniform(0.5, 1.5)) + rng.normal(size=size) * t * amp * 0.01)      # a state not asked before
+        Ka_ = p.calc_kT(c=carr, silent=True, Fnxny=Farg, **okw).toarray()
+        carr *= float(rng.uniform(0.3, 0.8))
+        carr[int(rng.integers(0, size))] += t * amp * 0.1
+        Kb_ = p.calc_kT(c=carr, silent=True, Fnxny=Farg, **okw).toarray()
+        tw = gen.build_panel(d)
+        tw.calc_k0(silent=True)
+        okw_t = dict(okw)
+        okw_t.setdefault('nx', p.nx); okw_t.setdefault('ny', p.ny)
+        Kt_ = tw.calc_kT(c=carr.copy(), silent=True, Fnxny=Farg, **okw_t).toarray()
+        sck = np.abs(Kt_) + np.abs(K0) + 1e-9 * np.abs(Kt_).max() + 1e-300
+        c.judge('kT of a state array updated in place equals kT of a fresh copy of the same values on a twin object',
+                float((np.abs(Kb_ - Kt_) / sck).max()), 1e-11)
     # the discretised pair must be consistent for ANY Gauss order (not only exact ones)
     nx2, ny2 = orders(rng, p, False)
     c.desc.update(nx_inexact=nx2, ny_inexact=ny2)
